@@ -220,6 +220,7 @@ class Program:
                 root = fn.d.get("root")
                 if root in self.fns:
                     self.fns[root].closures.append(fn)
+        self.field_renames = canonicalise_fields(self)
 
     def impl_fn(self, trait, self_ty, name):
         """method `name` of `impl trait for self_ty` (trait None = inherent)."""
@@ -252,6 +253,117 @@ class Program:
 
 class AnchorMissing(Exception):
     pass
+
+
+# Private state structs whose fields the rules talk about.  A field is identified by its *type* (role), so renaming a
+# private field does not change what a rule means; the rules keep using the canonical names below, and the fact base
+# is rewritten at load time when the source uses another name.  Fields that cannot be told apart by type keep their
+# own names.
+FIELD_ROLES = {
+    "rbx_binary::serializer::state::SerializerState": {
+        "relevant_instances": r"^alloc::vec::Vec<rbx_types::referent::Ref>$", "id_to_referent": r"HashMap<rbx_types::referent::Ref, i32\b",
+        "type_infos": r"^rbx_binary::serializer::state::TypeInfos<", "shared_strings": r"^alloc::vec::Vec<rbx_types::shared_string::SharedString>$",
+        "shared_string_ids": r"HashMap<rbx_types::shared_string::SharedString, u32\b", "output": r"^W$", "dom": r"^&'dom rbx_dom_weak::dom::WeakDom$",
+        "serializer": r"^&'db rbx_binary::serializer::Serializer<"},
+    "rbx_binary::serializer::state::TypeInfos": {"values": r"BTreeMap<ustr::Ustr, rbx_binary::serializer::state::TypeInfo<", "next_type_id": r"^u32$", "database": r"ReflectionDatabase<"},
+    "rbx_binary::serializer::state::TypeInfo": {
+        "type_id": r"^u32$", "is_service": r"^bool$", "instances": r"^alloc::vec::Vec<&'dom rbx_dom_weak::instance::Instance>$",
+        "properties": r"BTreeMap<ustr::Ustr, rbx_binary::serializer::state::PropInfo<", "class_descriptor": r"Option<&'db rbx_reflection::database::ClassDescriptor<"},
+    "rbx_binary::serializer::state::PropInfo": {
+        "prop_type": r"^rbx_binary::types::Type$", "serialized_name": r"^ustr::Ustr$", "aliases": r"HashSet<ustr::Ustr",
+        "default_value": r"Cow<'db, rbx_types::variant::Variant>", "migration": r"Option<&'db rbx_reflection::migration::PropertyMigration>"},
+    "rbx_binary::deserializer::state::DeserializerState": {
+        "tree": r"^rbx_dom_weak::dom::WeakDom$", "shared_strings": r"^alloc::vec::Vec<rbx_types::shared_string::SharedString>$",
+        "type_infos": r"HashMap<u32, rbx_binary::deserializer::state::TypeInfo\b", "instances_by_ref": r"HashMap<i32, rbx_binary::deserializer::state::Instance\b",
+        "root_instance_refs": r"^alloc::vec::Vec<i32>$", "metadata": r"HashMap<alloc::string::String, alloc::string::String\b", "input": r"^R$"},
+    "rbx_binary::deserializer::state::TypeInfo": {"type_id": r"^u32$", "type_name": r"^ustr::Ustr$", "referents": r"^alloc::vec::Vec<i32>$"},
+    "rbx_binary::deserializer::state::Instance": {"builder": r"InstanceBuilder$", "children": r"^alloc::vec::Vec<i32>$"},
+    "rbx_binary::chunk::ChunkBuilder": {"chunk_name": r"^&'static \[u8\]$", "compression": r"CompressionType$", "buffer": r"^alloc::vec::Vec<u8>$"},
+    "rbx_xml::serializer::EmitState": {
+        "options": r"EncodeOptions<", "referent_map": r"HashMap<rbx_types::referent::Ref, u32\b", "next_referent": r"^u32$",
+        "shared_strings_to_emit": r"SharedStringHash, rbx_types::shared_string::SharedString>"},
+    "rbx_xml::deserializer::ParseState": {
+        "tree": r"rbx_dom_weak::dom::WeakDom$", "options": r"DecodeOptions<", "referents_to_ids": r"HashMap<alloc::string::String, rbx_types::referent::Ref\b",
+        "referent_rewrites": r"Vec<rbx_xml::deserializer::ReferentRewrite>", "known_shared_strings": r"HashMap<alloc::string::String, rbx_types::shared_string::SharedString\b",
+        "shared_string_rewrites": r"Vec<rbx_xml::deserializer::SharedStringRewrite>", "unknown_type_names": r"HashSet<alloc::string::String\b"},
+    "rbx_dom_weak::dom::WeakDom": {"instances": r"AHashMap<rbx_types::referent::Ref, rbx_dom_weak::instance::Instance>", "root_ref": r"^rbx_types::referent::Ref$", "unique_ids": r"AHashSet<rbx_types::unique_id::UniqueId>"},
+    "rbx_dom_weak::instance::Instance": {"children": r"^alloc::vec::Vec<rbx_types::referent::Ref>$"},
+    "rbx_dom_weak::dom::CloneContext": {"queue": r"VecDeque<\(rbx_types::referent::Ref, rbx_types::referent::Ref\)>", "ref_rewrites": r"AHashMap<rbx_types::referent::Ref, rbx_types::referent::Ref>"},
+    "rbx_dom_weak::dom::WeakDomDescendants": {"queue": r"VecDeque<rbx_types::referent::Ref>", "dom": r"rbx_dom_weak::dom::WeakDom$"},
+    "rbx_types::shared_string::SharedString": {"data": r"Option<alloc::sync::Arc<alloc::vec::Vec<u8>>>", "hash": r"^blake3::Hash$"},
+}
+
+
+def canonicalise_fields(prog):
+    """Rename fields of the structs in FIELD_ROLES to their canonical (role) names throughout the fact base, when the
+    source names differ.  Returns {adt: {actual name: canonical name}} for the evidence."""
+    ren = {}
+    for adt, roles in FIELD_ROLES.items():
+        a = prog.adts.get(adt)
+        if a is None or not a.get("variants"):
+            continue
+        fields = a["variants"][0]["fields"]
+        names = {f["name"] for f in fields}
+        m = {}
+        for canon, rx in roles.items():
+            if canon in names:
+                continue      # the canonical name is in use: nothing to do for this role
+            hits = [f for f in fields if re.search(rx, f["ty"])]
+            # unambiguous by type, and not already claimed by another role that kept its name
+            hits = [f for f in hits if f["name"] not in roles]
+            if len(hits) == 1:
+                m[hits[0]["name"]] = canon
+        if m:
+            ren[adt] = m
+    if not ren:
+        return {}
+
+    def adt_of(ty):
+        t = (ty or "").lstrip("&").strip()
+        t = re.sub(r"^'\w+ ", "", t)
+        t = re.sub(r"^mut ", "", t).strip()
+        t = re.sub(r"^&('\w+ )?(mut )?", "", t)
+        return t.split("<", 1)[0]
+    for adt, m in ren.items():
+        for f in prog.adts[adt]["variants"][0]["fields"]:
+            if f["name"] in m:
+                f["name"] = m[f["name"]]
+    mir_map = {f"{adt}.{old}": f"{adt}.{new}" for adt, m in ren.items() for old, new in m.items()}
+    for fn in prog.fns.values():
+        if fn.body is not None:
+            stack = [fn.body, fn.params]
+            while stack:
+                n = stack.pop()
+                if isinstance(n, dict):
+                    k = n.get("k")
+                    if k == "Field" and isinstance(n.get("e"), dict):
+                        a = adt_of(n["e"].get("aty") or n["e"].get("ty"))
+                        if a not in ren:
+                            a = adt_of(n["e"].get("ty"))
+                        if a in ren and n.get("f") in ren[a]:
+                            n["f"] = ren[a][n["f"]]
+                    if k == "Struct" and n.get("def") in ren and isinstance(n.get("fields"), list):
+                        for fl in n["fields"]:
+                            if isinstance(fl, dict) and fl.get("f") in ren[n["def"]]:
+                                fl["f"] = ren[n["def"]][fl["f"]]
+                    if k == "Closure":
+                        for cp in n.get("captures") or []:
+                            pass
+                    stack.extend(v for v in n.values() if isinstance(v, (dict, list)))
+                elif isinstance(n, list):
+                    stack.extend(n)
+        if fn.mir:
+            stack = [fn.mir["blocks"]]
+            while stack:
+                n = stack.pop()
+                if isinstance(n, dict):
+                    pr = n.get("proj")
+                    if isinstance(pr, list):
+                        n["proj"] = [mir_map.get(x, x) if isinstance(x, str) else x for x in pr]
+                    stack.extend(v for v in n.values() if isinstance(v, (dict, list)))
+                elif isinstance(n, list):
+                    stack.extend(n)
+    return ren
 
 
 _PROGRAMS = {}
